@@ -12,7 +12,7 @@ EXES=$(grep -A1 '^\[\[lean_exe\]\]' lean/lakefile.toml | grep '^name' | sed 's/n
 (cd lean && lake build $EXES)
 # a property module that no longer builds is that property's violation (reported by its check with
 # the broken theorem named), not a reason to leave every other check without its driver
-(cd lean && lake build $PROPS) || echo "setup: some property modules failed to build (their checks will report it)"
+(cd lean && lake build $PROPS GcArena.Audit.StmtHash GcArena.All) || echo "setup: some property modules failed to build (their checks will report it)"
 for d in harness extract_brand extract harness_layout harness_collect harness_dynroots harness_conv; do
   if [ -f "$d/Cargo.toml" ]; then
     [ -f "$d/Cargo.lock" ] || cp /repo/Cargo.lock "$d/Cargo.lock"
